@@ -397,12 +397,79 @@ func (vc *VC) noteWrite(key string) {
 		vc.nonFresh[wb][key] = true
 		return
 	}
+	if vc.freshRoots[wb] == nil {
+		vc.freshRoots[wb] = map[string][]int{}
+	}
+	if vc.writeRoot == ssa.Value(localMark) {
+		// allocated by this function at an unknown point (append accumulator): local, but not loop-fresh
+		vc.freshRoots[wb][key] = append(vc.freshRoots[wb][key], -1)
+		return
+	}
 	if ins, ok := vc.writeRoot.(ssa.Instruction); ok && ins.Block() != nil {
-		if vc.freshRoots[wb] == nil {
-			vc.freshRoots[wb] = map[string][]int{}
-		}
 		vc.freshRoots[wb][key] = append(vc.freshRoots[wb][key], ins.Block().Index)
 	}
+}
+
+// localMark: pseudo allocation root of writes into append accumulators that start as nil (their backing arrays are
+// allocated by this function, at an unknown point).
+var localMark = &ssa.Const{}
+
+// allocRootOf: allocRoot, plus results of calls whose contract ensures fresh(result).
+func (vc *VC) allocRootOf(v ssa.Value) ssa.Value {
+	if r := allocRoot(v); r != nil {
+		return r
+	}
+	for i := 0; i < 10; i++ {
+		switch x := v.(type) {
+		case *ssa.FieldAddr:
+			v = x.X
+			continue
+		case *ssa.IndexAddr:
+			v = x.X
+			continue
+		case *ssa.Slice:
+			v = x.X
+			continue
+		case *ssa.Call:
+			if fn := x.Call.StaticCallee(); fn != nil {
+				if sp := vc.eng.specFor(funcKey(fn)); sp != nil && specEnsuresFresh(sp) {
+					return x
+				}
+			}
+		}
+		break
+	}
+	return nil
+}
+
+// specEnsuresFresh: some ensures clause has the unconditional top-level conjunct fresh(<first result>).
+func specEnsuresFresh(sp *FuncSpec) bool {
+	names := map[string]bool{"result": true, "r0": true}
+	if len(sp.Results) > 0 {
+		names[sp.Results[0]] = true
+	}
+	var conj func(e SpecExpr) bool
+	conj = func(e SpecExpr) bool {
+		switch x := e.(type) {
+		case SBinary:
+			if x.Op == "&&" {
+				return conj(x.X) || conj(x.Y)
+			}
+		case SCall:
+			if x.Fun == "fresh" && len(x.Args) == 1 {
+				if id, ok := x.Args[0].(SIdent); ok && names[id.Name] {
+					return true
+				}
+			}
+		}
+		return false
+	}
+	for _, c := range append(append([]Clause{}, sp.Ensures...), sp.Assumed...) {
+		if conj(c.Expr) {
+			return true
+		}
+	}
+	return false
 }
 
 // allocRoot follows an address back to the allocation it points into (nil if unknown).
